@@ -693,7 +693,7 @@ def purity(ctx, world):
                         ctx.fail("A9.pure", inst + ":fresh", f"{inst}:returns-operand", loc_of(mod, st), f"{inst} returns one of its operands (or a view of it) on some path instead of a newly allocated sum: `{str(bad_[0].leaf)[:60]}`", "a value with three contributions the second of which is zero (an inactive branch): the first contribution's buffer, not owned by autograd, is then accumulated into in place")
                     else:
                         ctx.ob("A9.pure", inst + ":fresh", True, loc_of(mod, st))
-            if st.name in ("_add", "_mut_add", "_scalar_mul", "_inner_prod", "_covector") and len(st.args.args) >= 2:
+            if (st.name in ("_add", "_mut_add", "_scalar_mul", "_inner_prod", "_covector") and len(st.args.args) >= 2) or st.name in ("zeros", "ones", "standard_basis", "randn"):
                 # the operations act in the precision of the space: no operand is converted to a FIXED dtype
                 # (np.float64 / np.complex128 ...): a longdouble / clongdouble space would silently lose range and digits
                 from ..tutil import expand as _expand2, unseq as _unseq2
@@ -714,6 +714,11 @@ def purity(ctx, world):
                             cands.append(t_.args[0])
                         if nm2 in ("asarray", "array", "asanyarray") and len(t_.args) > 1:
                             cands.append(t_.args[1])
+                        for c_ in list(cands):
+                            # result_type(self.dtype, float) / promote_types(d, np.float64): promotion with a FIXED type
+                            # is a conversion of everything narrower than it
+                            if c_.op == "call" and c_.fn.op == "ref" and c_.fn.ref.qual.rsplit(".", 1)[-1] in ("result_type", "promote_types", "find_common_type"):
+                                cands.extend(a_ for a_ in c_.args if a_.op in ("ref", "const"))
                         for c_ in cands:
                             if c_.op == "ref" and (c_.ref.qual.startswith("numpy.") or c_.ref.qual in ("builtins.float", "builtins.complex", "builtins.int")) and fixed is None:
                                 fixed = (t_, c_.ref.qual)
@@ -1229,8 +1234,13 @@ def _is_one_shot_expr(world, mod, v, depth):
         return True
     if isinstance(v, ast.IfExp):
         return _is_one_shot_expr(world, mod, v.body, depth) or _is_one_shot_expr(world, mod, v.orelse, depth)
+    if isinstance(v, ast.Attribute) and v.attr == "flat":
+        return True  # ndarray.flat is a numpy.flatiter: len() and indexing work, but iterating it a second time yields nothing
     if not isinstance(v, ast.Call):
         return False
+    r0 = world.repo.resolve_expr(mod, v.func) if isinstance(v.func, (ast.Name, ast.Attribute)) else None
+    if r0 is not None and r0.qual in ("numpy.nditer", "numpy.ndenumerate", "numpy.ndindex", "numpy.broadcast"):
+        return True
     if isinstance(v.func, ast.Name) and v.func.id in ONE_SHOT and world.repo.resolve(mod, v.func.id) is not None and world.repo.resolve(mod, v.func.id).qual == "builtins." + v.func.id:
         return True
     r = world.repo.resolve_expr(mod, v.func) if isinstance(v.func, (ast.Name, ast.Attribute)) else None
